@@ -8,7 +8,7 @@ import vlib
 META = {
     "category": "model_checking",
     "text": "Wire.tla is the referee: its CodecView reads a name, a question and a record at every offset of an enumerated message and the whole message in the new API's flattened view; its PlainView reads stretches of the message as byte strings of their own (a name, a skipped name, a question, a record, split off and exact) the way the routes without decompression do. TLC checks that the new codec's stricter pointer rule only ever rejects more, that the flattened view is consistent with the sectioned one, and that a plain name is exactly a name the message route reads without meeting a pointer. Every enumerated message (~57k quick) is read by base::Message/ParsedName/Question/ParsedRecord+AllRecordData, Name::parse/from_octets, ParsedName::skip and by new::base NameBuf/RevNameBuf/Question/Record<RecordData>/MessageParser through split_message_bytes and through ParseBytes/SplitBytes of &Name, NameBuf, RevNameBuf, &UnparsedName, Question and Record, and compared three-way (old vs spec, new vs spec, old vs new). The referee knows the RDATA of NS/CNAME/PTR/MX/SOA/RP (names decompressed), SRV/DNAME/NSEC/RRSIG (names the new codec never decompresses), TXT/HINFO (character strings), OPT, A, AAAA. Family P puts names of 253..257 octets (17 label partitions) and character strings of 255 octets in every such place - bare, question, owner, each RDATA slot, completed by a pointer into a long question name - on every route. Random build scripts run on both builders (old: TreeCompressor, new: NameCompressor through both the reversed-name and the forward-name path), every fourth crossing the 16384-octet pointer limit with filler records; each output is read by both codecs and, up to 220 octets, re-parsed by TLC against the pushed items; recorded reads of random limit-shape messages (random partitions and octets, every place x 253..257) by every route are validated by TLC against the referee.",
-    "note": "Trusted: TLC, the transcription in Wire.tla, the harness. Where the referee gives no verdict on RDATA (types it does not know, a pointer inside SRV/DNAME/NSEC/RRSIG names in a message, a non-canonical type bitmap, an empty TXT) the case input says so and the item is not compared with the spec; for types both codecs know, accept/reject is still compared between the codecs. The content of character strings is not compared (accept/reject and lengths of the RDATA only); UnparsedName is compared as 'a name skipped'; the derive macros of other record types and Box<Name>/parse_bytes_in are not exercised. Names are compared case-insensitively after building (a compressor may point to an equal name in another case). Outputs beyond 220 octets are judged by the two readers only. The established builder is not driven across 16384 (its compressors' limit is C02's finding D_ptr_limit_c000). Build scripts also fill small buffers until pushes fail and truncate()/rewind in the middle, comparing counts after every call. The new builder is not asked to write DNAME/SRV (new::rdata::DName compresses its target, which its own reader rejects: not covered here). Open known findings: D_new_ptr_rule and four accept/reject disagreements on RDATA (empty TXT, compressed names in SRV/DNAME/RRSIG/NSEC, non-canonical type bitmaps, short ZONEMD digest).",
+    "note": "Trusted: TLC, the transcription in Wire.tla, the harness. Where the referee gives no verdict on RDATA (types it does not know, a pointer inside SRV/DNAME/NSEC/RRSIG names in a message, a non-canonical type bitmap, an empty TXT) the case input says so and the item is not compared with the spec; for types both codecs know, accept/reject is still compared between the codecs. The content of character strings is not compared (accept/reject and lengths of the RDATA only); UnparsedName is compared as 'a name skipped'; the derive macros of other record types and Box<Name>/parse_bytes_in are not exercised. Names are compared case-insensitively after building (a compressor may point to an equal name in another case). Outputs beyond 220 octets are judged by the two readers only. The established builder is not driven across 16384 (its compressors' limit is C02's finding D_ptr_limit_c000). Build scripts also fill small buffers until pushes fail and truncate()/rewind in the middle, comparing counts after every call. The builders are not asked to write SRV/DNAME/NSEC/RRSIG/RP/TXT/HINFO records (reading only). Open known findings: D_new_ptr_rule and four accept/reject disagreements on RDATA (empty TXT, compressed names in SRV/DNAME/RRSIG/NSEC, non-canonical type bitmaps, short ZONEMD digest).",
     "technique": "TLA+ spec (Wire.tla) + TLC exhaustive over enumerated messages; spec->impl differential case replay on two codecs; impl->spec trace validation of build scripts",
     "design_ref": "DESIGN.md §4 C19",
 }
